@@ -212,7 +212,7 @@ pub fn apply(w: &mut RouterWorld, cfg: &Cfg, a: &Act) {
                     let (id, uid, ci, name) = (w.ended[i].id, w.ended[i].uid, w.ended[i].ci, w.ended[i].name.clone());
                     w.deliver_late(id, uid, ci, &name, ev);
                 }
-                w.ended.retain(|e| !e.pending.is_empty());
+                w.ended.retain(|e| !e.pending.is_empty() || !e.pushed.is_empty());
             }
         }
         Act::Hold => w.manual = true,
@@ -581,6 +581,9 @@ fn enabled_c06(w: &RouterWorld, cfg: &Cfg, v: &mut Vec<(Act, u8)>) {
         if cfg.filters.len() >= 2 {
             v.push((Act::Sub2 { c, f1: 0, f2: 1, qos: 1 }, 0));
             v.push((Act::Unsub2 { c, f1: 0, f2: 1 }, 0));
+            // the same filter twice in one SUBSCRIBE / UNSUBSCRIBE: one code per occurrence
+            v.push((Act::Sub2 { c, f1: 1, f2: 1, qos: 2 }, 0));
+            v.push((Act::Unsub2 { c, f1: 1, f2: 1 }, 0));
         }
         if !w.manual {
             for kind in 0..super::hostile::BATCH_KINDS {
@@ -810,6 +813,8 @@ fn enabled_c14(w: &RouterWorld, cfg: &Cfg, v: &mut Vec<(Act, u8)>) {
             if live(w, o) {
                 v.push((Act::Drop { c: o }, 0));
                 v.push((Act::Batch { c: o, kind: 8 }, 0));
+                // a publish on the shared filter and the offender's own UNSUBSCRIBE in one batch
+                v.push((Act::Batch { c: o, kind: 5 }, 0));
                 if w.manual {
                     v.push((Act::Bad { c: o, kind: 0 }, 0));
                 }
